@@ -294,8 +294,9 @@ class Cleanup:
             ):
                 result.append("pass")  # replace the docstring by a pass statement
             elif token == FSTRING_MIDDLE:  # the tokenizer has halved the doubled braces
-                result.append(string.replace("{", "{{").replace("}", "}}"))
-                end_col += string.count("{") + string.count("}")  # two source columns each
+                doubled = regex.sub(r"(\\N\{[^{}]*\})|[{}]", lambda m: m[1] or 2 * m[0], string)
+                result.append(doubled)  # the braces of a named escape (`\N{...}`) are left alone
+                end_col += len(doubled) - len(string)  # two source columns each
             else:
                 result.append(string)
             if not (token in (NL, COMMENT) and previous_token in (INDENT, DEDENT, NEWLINE)):
